@@ -107,7 +107,10 @@ func runCheck(prop, tier string, seed uint64) int {
 	if m.inconclusive*100 > m.runs {
 		return trouble("%d of %d runs were inconclusive (step cap or linearizability timeout) - the check no longer decides", m.inconclusive, m.runs)
 	}
-	shrinkBudget := 45 * time.Second
+	shrinkBudget := 20 * time.Second
+	if tier == "thorough" {
+		shrinkBudget = 60 * time.Second
+	}
 	conf, err := processViolations(s, spec, b, m.violations, shrinkBudget)
 	if err != nil {
 		return trouble("%v", err)
